@@ -46,7 +46,28 @@ def _same_fate(m, i):
 
 GATE = C.Kind("datagram", impl=BH.parse_direct, model=lambda h: "dgram " + h, judge=_judge, classify=_cls, compare=_same_fate,
               nontrivial=lambda h, o: (_cls(h, o), h[:8], h[148:152]))
-KINDS = {"datagram": GATE}
+GATE_BUF = C.Kind("datagram-in-a-reused-buffer", impl=lambda h: BH.parse_direct(h, "buffer"), model=lambda h: "dgram " + h, judge=_judge,
+                  classify=_cls, compare=_same_fate, nontrivial=lambda h, o: (_cls(h, o), h[:8], h[148:152]))
+GATE_DBG = C.Kind("datagram-with-debug-logging", impl=lambda h: BH.parse_direct(h, "debug"), model=lambda h: "dgram " + h, judge=_judge,
+                  classify=_cls, compare=_same_fate, nontrivial=lambda h, o: (_cls(h, o), h[:8], h[148:152]))
+def _impl_kept(a):
+    """ONE DatagramParser object kept over a receive buffer that is refilled: the gate is asked about what is in the buffer now"""
+    from aioswitcher.bridge import DatagramParser
+    buf = bytearray(bytes.fromhex(a[0]) if a[0] != "-" else b"")
+    try:
+        p = DatagramParser(buf)
+        r1 = p.is_switcher_originator()
+        buf[:] = bytes.fromhex(a[1]) if a[1] != "-" else b""
+        r2 = p.is_switcher_originator()
+        return f"{int(bool(r1))} {int(bool(r2))}"
+    except Exception as e:  # noqa
+        return "raise " + C.exc_name(e)
+
+
+KEPT = C.Kind("gate-of-a-parser-kept-over-a-refilled-buffer", impl=_impl_kept,
+              judge=lambda a, o: [(f"c06gate {a[0]}", o.split(" ")[0]), (f"c06gate {a[1]}", o.split(" ")[-1])],
+              classify=lambda a, o: o, nontrivial=lambda a, o: (o, a[0][:6], a[1][:6], len(a[0]), len(a[1])))
+KINDS = {"gate-of-a-parser-kept-over-a-refilled-buffer": KEPT, "datagram": GATE, "datagram-in-a-reused-buffer": GATE_BUF, "datagram-with-debug-logging": GATE_DBG}
 
 
 def _lengths(rng):
@@ -111,6 +132,23 @@ def streams(ctx):
     rng = ctx.rng
     ctx.run_cases(GATE, "every-length-0..400", _lengths(rng), exhaustive=False, sample_every=397)
     ctx.run_cases(GATE, "captures-truncated-or-extended", _around_captures(), exhaustive=True, sample_every=31)
+    # the same kinds of datagram arriving in ONE receive buffer that is refilled every time (genuine and foreign ones alternating),
+    # and with the library logging at DEBUG (unknown models with undecodable names included)
+    alt = []
+    gen = _codes(rng, [rng.randrange(65536) for _ in range(ctx.n(60, 600))] + [int(c, 16) for c in _known_codes()])
+    for i, h in enumerate(gen):
+        alt += [h, rng.choice([rng.randbytes(len(h) // 2).hex(), (b"\xfe\xf1" + rng.randbytes(len(h) // 2 - 2)).hex(), h[:-2], "-"])]
+    ctx.run_cases(GATE_BUF, "datagrams-in-one-reused-receive-buffer", alt, exhaustive=False, sample_every=97)
+    ctx.run_cases(KEPT, "one-parser-object-over-a-refilled-buffer", [(alt[i], alt[i + 1]) for i in range(0, len(alt) - 1)], exhaustive=False,
+                  sample_every=97)
+    dbg = list(gen)
+    for h in gen[:ctx.n(120, 1200)]:
+        b = bytearray.fromhex(h)
+        b[42:46] = b"\xff\xfe\xc3\x28"          # a name that is not UTF-8
+        dbg.append(bytes(b).hex())
+        b[74:76] = rng.randbytes(2)                # ... under an arbitrary (mostly unknown) model code
+        dbg.append(bytes(b).hex())
+    ctx.run_cases(GATE_DBG, "datagrams-while-the-library-logs-at-debug-level", dbg + _around_captures(), exhaustive=False, sample_every=97)
     known = sorted(int(c, 16) for c in _known_codes())
     if ctx.quick:
         codes = sorted(set([k + d for k in known for d in (-1, 0, 1)] + [0, 1, 0xffff, 0x9999] + [rng.randrange(65536) for _ in range(900)]))
